@@ -289,13 +289,20 @@ pub fn run_case(c: &Case) -> CaseResult {
     // the victim still serves others: an honest node connects, gets a request answered and a lookup done
     let helper = Node::spawn(2, honest(c.seed % 300 + 63_000), log.clone()).map_err(|e| CaseFail::new("C19/harness-node-start-failed", e))?;
     let ph = helper.peer;
-    helper.send(Cmd::DialAddress(addr_v.clone()));
-    let up = wait_until(&log, Duration::from_millis(4000), |l| connected(l, 2, &pv) && connected(l, 0, &ph));
+    // up to three attempts: a single dial between healthy nodes fails about once in 35 000 on a busy machine
+    let mut up = false;
+    for _ in 0..3 {
+        helper.send(Cmd::DialAddress(addr_v.clone()));
+        if wait_until(&log, Duration::from_millis(3000), |l| connected(l, 2, &pv) && connected(l, 0, &ph)) {
+            up = true;
+            break;
+        }
+    }
     if !up {
         if !crate::f4::control_pair_works(case_id, c.seed) {
             return Err(CaseFail::new("C19/harness-machine-too-busy", "a control pair of fresh nodes could not connect and exchange a request either"));
         }
-        fail!("C19/victim-stopped-serving/connect", "after the rogue's session an honest node cannot connect to the victim within 4 s");
+        fail!("C19/victim-stopped-serving/connect", "after the rogue's session an honest node cannot connect to the victim (3 attempts, 9 s)");
     }
     helper.send(Cmd::RrSend { peer: pv, payload: rr_request(777, 0, 0, 8, 20), dial: false });
     let answered = wait_until(&log, Duration::from_millis(4000), |l| l.iter().any(|o| o.node == 2 && matches!(&o.kind, ObsKind::RrResponse { .. })));
